@@ -71,7 +71,7 @@ def judge(ctx, cases, impl, model):
 
 def run(ctx):
     g = G(ctx.seed)
-    n = 150 if ctx.tier == 'quick' else 3000
+    n = 600 if ctx.tier == 'quick' else 3000
     cases = gen_cases(g, n, reps=3 if ctx.tier == 'quick' else 10)
     impl, model = ctx.both(cases)
     judge(ctx, cases, impl, model)
@@ -94,7 +94,7 @@ def run(ctx):
     # through the CLI: csv database-resolved
     apps = []
     specs = {}
-    for _ in range(60 if ctx.tier == 'quick' else 600):
+    for _ in range(250 if ctx.tier == 'quick' else 600):
         book = g.book(depth=g.r.choice([1, 2, 3]), exact=True)
         bm = spec.book_map(book)
         if len(bm) != len(book):
